@@ -8,7 +8,7 @@ proof, models, out, pid = sys.argv[1:5]
 names = sys.argv[5:]
 coq = os.path.join(os.path.dirname(os.path.abspath(__file__)), '..', 'coq')
 imports = "From Coq Require Import ZArith List Bool Lia Arith.\nImport ListNotations.\nRequire Import %s %s.\n" % (" ".join(models.split(',')), proof)
-script = imports + "Set Printing Width 110.\nSet Printing Depth 1000.\n" + "".join("Check %s.\n" % n.split('=')[0] for n in names)
+script = imports + "Local Open Scope Z_scope.\nSet Printing Width 110.\nSet Printing Depth 1000.\n" + "".join("Check %s.\n" % n.split('=')[0] for n in names)
 open('/tmp/pin_q.v', 'w').write(script)
 r = subprocess.run("coqc -R . Circ /tmp/pin_q.v", shell=True, cwd=coq, stdout=subprocess.PIPE, stderr=subprocess.STDOUT)
 txt = r.stdout.decode()
